@@ -1,6 +1,7 @@
 package ech
 
 import (
+	"errors"
 	"context"
 	"crypto/tls"
 	"net"
@@ -17,7 +18,7 @@ type vAttempt struct {
 	end      int64
 	startSeq int // position of the start / end event in the global event order
 	endSeq   int
-	outcome  int // 0 succeed, 1 fail, 2 hang until the context ends
+	outcome  int // 0 succeed, 1 fail, 2 hang until the context ends, 3 succeed after its time without watching the context
 	ctxDead  bool
 	ctxEnded bool // the attempt ended because its context did
 	conn     *vDialConn
@@ -28,7 +29,7 @@ type vAttempt struct {
 // {succeed, fail, hang} after a duration from a small grid, optional caller
 // cancellation, in virtual time; select choices are always forked.
 func verifC18Dial() {
-	nt := vInt(1, 3+vTier())
+	nt := vInt(0, 3+vTier())
 	maxc := vInt(1, 2+vTier())
 	delay := 4 * vUnit
 	timeout := 10 * vUnit
@@ -43,7 +44,7 @@ func verifC18Dial() {
 	outcomes := make([]int, nt)
 	durs := make([]int64, nt)
 	for i := range outcomes {
-		outcomes[i] = vInt(0, 2)
+		outcomes[i] = vInt(0, 3)
 		durs[i] = int64([]int{0, 2, 6, 12}[vInt(0, 2+vTier())]) * vUnit
 	}
 	d := &Dialer[*vDialConn]{MaxConcurrency: maxc, ConcurrencyDelay: time.Duration(delay), Timeout: time.Duration(timeout)}
@@ -72,6 +73,12 @@ func verifC18Dial() {
 			a.ctxEnded = true
 			return nil, ctx.Err()
 		}
+		if a.outcome == 3 {
+			// a dial function that does not watch its context: it succeeds after its time, come what may
+			time.Sleep(time.Duration(durs[idx%nt]))
+			a.conn = &vDialConn{addr: addr}
+			return a.conn, nil
+		}
 		select {
 		case <-time.After(time.Duration(durs[idx%nt])):
 		case <-ctx.Done():
@@ -89,7 +96,7 @@ func verifC18Dial() {
 	stopSleeper := make(chan struct{})
 	var cancel context.CancelFunc
 	if vBool() {
-		cancelAt = int64(vInt(0, 2)) * 3 * vUnit
+		cancelAt = int64(vInt(0, 2))*3*vUnit + vUnit/2 // (never at the very instant an attempt completes: natively such ties cannot be steered)
 		ctx, cancel = context.WithCancel(ctx)
 		go func() {
 			select {
@@ -158,19 +165,45 @@ func verifC18Dial() {
 		vAssert(legit, "an attempt's context ends only after Timeout from its own start, caller cancellation, a success, or Dial's return")
 	}
 	if err == nil {
-		// the first success wins (in time order of completion)
+		// the first success wins: the returned connection is one that was established, no
+		// other attempt had succeeded before it (event order), and Dial returns when it does
+		var w *vAttempt
 		for _, a := range atts {
-			if a.conn != nil && a.conn != conn && a.returned && vSymbolic() {
-				vAssert(a.end >= 0, "losers are accounted for")
+			if a.conn != nil && a.conn == conn {
+				w = a
 			}
+		}
+		vAssert(w != nil, "the returned connection is one an attempt established")
+		for _, a := range atts {
+			if w != nil && a != w && a.conn != nil && a.returned && a.end < w.end {
+				vFail("the first connection that succeeds is the one returned")
+			}
+		}
+		if w != nil && vSymbolic() {
+			vAssert(tEnd == w.end, "Dial returns as soon as the first attempt succeeds (virtual time)")
 		}
 		vReach("connected")
 	} else if cancelAt >= 0 && tEnd >= cancelAt && ctx.Err() != nil {
 		if vSymbolic() {
-			vAssert(tEnd <= cancelAt || err != nil, "returns on cancellation")
+			vAssert(tEnd == cancelAt, "Dial returns when the caller cancels, without waiting for its attempts (virtual time)")
 		}
+		vAssert(errors.Is(err, context.Canceled), "the caller's cancellation is reported")
 		vReach("cancelled")
 	} else {
+		// every target was tried and failed
+		vAssert(len(atts) == nt, "every target is attempted before Dial gives up")
+		for _, a := range atts {
+			vAssert(a.returned && a.conn == nil, "every attempt failed")
+		}
+		if vSymbolic() {
+			last := int64(0)
+			for _, a := range atts {
+				if a.end > last {
+					last = a.end
+				}
+			}
+			vAssert(tEnd == last, "Dial gives up when the last attempt has failed (virtual time)")
+		}
 		vReach("all-failed")
 	}
 	close(stopSleeper)
@@ -179,6 +212,7 @@ func verifC18Dial() {
 	}
 	// quiescence: once outstanding attempts have returned no goroutine is left,
 	// and every other established connection has been closed
+	vAdvance(13 * vUnit) // dial functions that do not watch their context finish in their own time
 	left := vQuiesce()
 	if vSymbolic() {
 		vAssert(left == 0, "no goroutine left behind once outstanding attempts returned")
@@ -187,9 +221,59 @@ func verifC18Dial() {
 		if a.conn != nil && a.conn != conn {
 			vAssert(a.conn.closed, "every other established connection is closed")
 		}
-		if a.start > tEnd {
+		if a.startSeq > retSeq {
 			vAssert(a.ctxDead, "an attempt begun after the outcome was decided runs under a cancelled context")
 		}
 	}
 	vReach("quiesced")
+}
+
+// verifC18Defaults: a Dialer with MaxConcurrency, ConcurrencyDelay and Timeout left
+// at zero uses the documented defaults: at most 3 attempts in flight, started one
+// second apart, each bounded by 30 seconds.  Five targets that hang; the caller
+// cancels after 2.5 seconds.
+func verifC18Defaults() {
+	res := ResolveResult{Port: 443}
+	for i := 0; i < 5; i++ {
+		res.Address = append(res.Address, net.IP{10, 0, 0, byte(i + 1)})
+	}
+	t0 := vNowNanos()
+	var starts, budgets []int64
+	inflight, maxInflight := 0, 0
+	d := &Dialer[*vDialConn]{}
+	d.DialFunc = func(ctx context.Context, network, addr string, c *tls.Config) (*vDialConn, error) {
+		now := vNowNanos()
+		starts = append(starts, now-t0)
+		if dl, ok := ctx.Deadline(); ok {
+			budgets = append(budgets, dl.UnixNano()-time.Now().UnixNano())
+		} else {
+			budgets = append(budgets, -1)
+		}
+		inflight++
+		if inflight > maxInflight {
+			maxInflight = inflight
+		}
+		<-ctx.Done()
+		inflight--
+		return nil, ctx.Err()
+	}
+	ctx, cancel := context.WithCancel(context.WithValue(context.Background(), transportResolverKey, &transportResolver{host: "h.example", result: res}))
+	go func() {
+		time.Sleep(2500 * time.Millisecond)
+		cancel()
+	}()
+	_, err := d.Dial(ctx, "tcp", "h.example:443", nil)
+	vAssert(err != nil, "cancelled")
+	vAssert(maxInflight == 3 && len(starts) == 3, "by default at most 3 attempts are in flight")
+	tol := int64(400 * time.Millisecond)
+	if vSymbolic() {
+		tol = 0
+	}
+	near := func(a, b int64) bool { return a-b <= tol && b-a <= tol }
+	for i, st := range starts {
+		vAssert(near(st, int64(i)*int64(time.Second)), "by default attempts start one second apart")
+		vAssert(budgets[i] >= 0 && near(budgets[i], int64(30*time.Second)), "by default each attempt is bounded by 30 seconds")
+	}
+	vQuiesce()
+	vReach("defaults")
 }
